@@ -4,7 +4,7 @@
    each host (ok / refuse / hang in connect / hang mid-command), the watchdog, the integer clock.
    Every statement is for every number of targets, every fanout >= 1, every assignment of
    behaviours, every time-out setting and every admitted event sequence. *)
-From PV Require Import Dsh.Sys Dsh.SysFacts Dsh.SysProj Dsh.SysLive Dsh.SysClock Dsh.SysMeasure.
+From PV Require Import Dsh.Sys Dsh.SysFacts Dsh.SysProj Dsh.SysLive Dsh.SysClock Dsh.SysMeasure Dsh.SysTerm.
 Local Open Scope Z_scope.
 
 (* ---- isolation: whatever the other hosts do, each target gets exactly one command ---- *)
@@ -83,6 +83,23 @@ Theorem C07_no_livelock : forall (c : cfg), 1 <= f c -> 0 < Z.of_N WDOG_POLL -> 
   Z.of_nat (length es) <= mu c s.
 Proof. exact no_livelock_reachable. Qed.
 Print Assumptions C07_no_livelock.
+
+(* Termination in numbers.  With positive time-outs, a maximal-progress run (the clock ticks only when no thread can take a
+   step) without spurious wake-ups of the dispatcher and without signals has at most
+       (2N+1) (max time-out + watchdog period) (83N + 29) + 83N + 28
+   events, whatever the hosts do; and a run that has not exited can always be extended by such an event.  Hence every
+   such run ends, and ends with pdsh exited: a hung or failing host delays the others by a bounded time and never for ever. *)
+Theorem C07_run_length_bounded : forall (c : cfg), 1 <= f c -> 0 < tconn c -> 0 < tcmd c -> 0 < Z.of_N WDOG_POLL -> forall t0, 0 <= t0 ->
+  forall es s, mprun c (init c t0) es s -> quiet_env es = true ->
+  Z.of_nat (length es) <= (2 * Z.of_nat (ntgt c) + 1) * (Z.max (tconn c) (tcmd c) + Z.of_N WDOG_POLL) * (83 * Z.of_nat (ntgt c) + 28 + 1)
+                           + (83 * Z.of_nat (ntgt c) + 28).
+Proof. exact run_length_bounded. Qed.
+Print Assumptions C07_run_length_bounded.
+
+Theorem C07_run_extensible : forall (c : cfg) t0 es s, mprun c (init c t0) es s -> exited s = None ->
+  exists e s', mprun c (init c t0) (es ++ [e]) s' /\ match e with ESpur | ESigArrive _ => False | _ => True end.
+Proof. exact run_extensible. Qed.
+Print Assumptions C07_run_extensible.
 
 Example C07_watchdog_period_positive : 0 < Z.of_N WDOG_POLL.
 Proof. vm_compute. reflexivity. Qed.
